@@ -16,6 +16,9 @@
 use anyhow::{anyhow, bail, Result};
 use serde_json::{json, Map, Value};
 use sha2::{Digest, Sha256};
+#[cfg(melda_verif)]
+use crate::verif_hooks::HashMap;
+#[cfg(not(melda_verif))]
 use std::collections::HashMap;
 use yavomrs::yavom::{myers_unfilled, Move, Point};
 
